@@ -17,7 +17,9 @@ func init() { families["cap"] = capMain }
 var capGrid = []string{"0.9.0", "1.0.0-alpha", "1.0.0-beta.2", "1.0.0", "1.0.1+build.5", "1.2.0", "1.10.0",
 	"2.0.0-rc1", "2.0.0", "2.1.3", "10.0.0", "16.0.3"}
 var capBuildAlias = map[int]string{4: "1.0.0+exp.sha.5114f85", 6: "1.2.0+b1"}
-var capBad = []string{"not-a-version", "1.x", "v..2", "1.0.0.0.0.0.0.0.0.a"}
+var capBad = []string{"not-a-version", "1.x", "v..2", "1.0.0.0.0.0.0.0.0.a",
+	// a version whose only defect is its pre-release or build suffix is unparsable all the same
+	"1.5.0+", "1.5.0+a..b", "1.5.0+?", "1.5.0+b+c", "1.5.0-a..b", "1.5.0+b ", "1.5.0-rc_1", "1.5.0+\u00e9"}
 
 func capStr(rng *rand.Rand, pos int) string {
 	switch {
